@@ -331,6 +331,8 @@ class PetriNetGenerator:
 
         group_uuid = str(uuid.uuid4())
         task_node = Node(group_uuid, task_call.name, node)
+        # a Parallel statement of the called task attaches its cluster to this node
+        task_node.cluster = Cluster([])
 
         # Order for callbacks important: Task starts before statement and finishes after
         self.add_callback(first_transition_uuid, self.callbacks.task_started, new_task_context)
